@@ -180,7 +180,11 @@ var sigVoid = sig{}
 
 // sigs assigns a signature to every node: rotation of the table by node index; the start function
 // is ()->(); a tail-called function has its caller's signature (return_call needs equal results).
-func (t Tree) sigs(start bool, rot int) []sig {
+func (t Tree) sigs(start bool, rot, shape int) []sig {
+	table := sigTable
+	if shape > 0 {
+		table = shapeSigTable
+	}
 	s := make([]sig, len(t))
 	for i := range t {
 		switch {
@@ -189,10 +193,54 @@ func (t Tree) sigs(start bool, rot int) []sig {
 		case isTailKind(t[i].Kind):
 			s[i] = s[t[i].Parent]
 		default:
-			s[i] = sigTable[(i+rot)%len(sigTable)]
+			s[i] = table[(i+rot)%len(table)]
 		}
 	}
 	return s
+}
+
+// shapeSigTable is used by the body-shape family: result arities 0, 1, 2 and 3.
+var shapeSigTable = []sig{
+	{[]byte{wb.I32}, nil},
+	{[]byte{wb.I64}, []byte{wb.I32}},
+	{[]byte{wb.I32, wb.F32}, []byte{wb.F64, wb.I32}},
+	{[]byte{wb.I64}, []byte{wb.F64, wb.I64, wb.F32}},
+}
+
+// Body shapes (how a returning function leaves, and what else is on its operand stack when it
+// does). Shape 0 is the plain family: exit form by node index, exactly the results on the stack.
+// Shape s > 0 gives node i the combination (s-1+7i) mod numShapeCombos of
+//
+//	exit    1 return | 2 br to the function label | 3 br_if (taken) | 4 br_table indexed | 5 br_table default
+//	        6 return inside a block that has the function's results | 7 return inside if{loop{}} with results
+//	        8 br out of two nested blocks | 0 fall through the end (only without surplus)
+//	surplus 0 none | 1 one operand beneath the results | 2 three operands of mixed types beneath the results
+//	        3 two operands inside an enclosing block that has its own results
+//	        4 one operand beneath an enclosing block that has its own results
+//
+// Surplus operands are distinct sentinels of rotating types i32/i64/f32/f64; leaving the function
+// discards them, so results and events must be exactly those of the plain body.
+const numShapeCombos = 8*5 + 1
+
+func shapeCombo(shape, node int) (exit, surplus int) {
+	c := (shape - 1 + 7*node) % numShapeCombos
+	if c == 8*5 {
+		return 0, 0
+	}
+	return 1 + c/5, c % 5
+}
+
+func sentinelRaw(node, j int, ty byte) uint64 {
+	base := uint64(900000 + 100*node + j)
+	switch ty {
+	case wb.I32:
+		return base
+	case wb.I64:
+		return base<<32 | base
+	case wb.F32:
+		return uint64(wb.F32Bits(float32(base) + 0.5))
+	}
+	return wb.F64Bits(float64(base) + 0.25)
 }
 
 func paramRaw(node, k int, ty byte) uint64 {
